@@ -256,6 +256,13 @@ pub fn mutants(b: &Base, uri_bytes: &[u8], reduced: bool) -> Vec<Mutant> {
         x.body.truncate(i);
         push(format!("body-truncated-to-{}", i), x);
     }
+    for (what, seq) in [("BOM", "\u{feff}".as_bytes()), ("UTF-16 BOM", &b"\xff\xfe"[..])] {
+        let mut x = w.clone();
+        let mut nb = seq.to_vec();
+        nb.extend_from_slice(&w.body);
+        x.body = nb;
+        push(format!("body-prefixed-with-{}", what), x);
+    }
     for extra in [&b"\0"[..], b" ", b"&x=1", b"\n"] {
         let mut x = w.clone();
         x.body.extend_from_slice(extra);
@@ -344,6 +351,17 @@ pub fn mutants(b: &Base, uri_bytes: &[u8], reduced: bool) -> Vec<Mutant> {
                     let mut x = w.clone();
                     x.body = v.join("&").into_bytes();
                     push(format!("form-element{}", lbl), x);
+                }
+                // well-known multi-byte sequences inserted at the start, between the elements and at the end
+                for (what, seq) in [("BOM", "\u{feff}".as_bytes()), ("ZWSP", "\u{200b}".as_bytes()), ("CRLF", &b"\r\n"[..]), ("escaped BOM", &b"%EF%BB%BF"[..]), ("NBSP", "\u{a0}".as_bytes())] {
+                    for at in [0usize, w.body.len() / 2, w.body.len()] {
+                        let mut x = w.clone();
+                        let mut nb = w.body[..at].to_vec();
+                        nb.extend_from_slice(seq);
+                        nb.extend_from_slice(&w.body[at..]);
+                        x.body = nb;
+                        push(format!("form-body-{}-inserted-at-{}", what, at), x);
+                    }
                 }
                 // a body element moved to the URL and back
                 if let Some(q) = &query {
@@ -706,7 +724,7 @@ pub fn run(ctx: &Ctx) -> Report {
     Report {
         stats: st,
         rule: format!(
-            "{} validly signed base requests (carrier x options x token x shape, one shape carrying x-amz-content-sha256 / Content-Length / Content-MD5 as S3 clients do), each accepted by implementation and reference; for each, every single-component mutation: 13 methods; every URI position x every byte http admits ({} values) + 7 insertions + deletion per position; every header (signed — one value holds Latin-1 bytes, a UTF-8 sequence and the replacement character U+FFFD; another is valid UTF-8 made of replacement characters only —, unsigned, Authorization, date, token) position x 11 bytes (incl. 0xE8, 0xE9, 0xA0, 0xC3) + insertion + deletion, header removed/added/duplicated/renamed; every bit of every body byte, truncations, appends; old signature transplanted onto requests re-signed with a changed instant (10 deltas, 5 renderings), date text, 12 scope near-misses, 5 access keys, signed-list drops/additions, token changes; provider key: all 256 single-bit flips, 5 off-by-one derivations, another secret; signature: every digit x 15 other values, upper case, every truncation, extensions, all hex strings of length <= 2{}. Finally the genuine request, a forged one under its signature (method / path / body changed) and the genuine one again are validated as two (thorough: three) futures multiplexed on one thread against a provider that is Pending first, in every order of polls. Each mutant is validated right after the genuine request was accepted on the same thread (so a remembered success cannot vouch for it). Oracle: the implementation may return Ok only if the reference verifier, run on the request as received with the key the provider handed out, accepts. states = distinct reference strings-to-sign (+ refusal stage); non-trivial = distinct (mutated request, provider)",
+            "{} validly signed base requests (carrier x options x token x shape, one shape carrying x-amz-content-sha256 / Content-Length / Content-MD5 as S3 clients do), each accepted by implementation and reference; for each, every single-component mutation: 13 methods; every URI position x every byte http admits ({} values) + 7 insertions + deletion per position; every header (signed — one value holds Latin-1 bytes, a UTF-8 sequence and the replacement character U+FFFD; another is valid UTF-8 made of replacement characters only —, unsigned, Authorization, date, token) position x 11 bytes (incl. 0xE8, 0xE9, 0xA0, 0xC3) + insertion + deletion, header removed/added/duplicated/renamed; every bit of every body byte, truncations, appends, byte-order marks / zero-width space / CR LF inserted into bodies; old signature transplanted onto requests re-signed with a changed instant (10 deltas, 5 renderings), date text, 12 scope near-misses, 5 access keys, signed-list drops/additions, token changes; provider key: all 256 single-bit flips, 5 off-by-one derivations, another secret; signature: every digit x 15 other values, upper case, every truncation, extensions, all hex strings of length <= 2{}. Finally the genuine request, a forged one under its signature (method / path / body changed) and the genuine one again are validated as two (thorough: three) futures multiplexed on one thread against a provider that is Pending first, in every order of polls. Each mutant is validated right after the genuine request was accepted on the same thread (so a remembered success cannot vouch for it). Oracle: the implementation may return Ok only if the reference verifier, run on the request as received with the key the provider handed out, accepts. states = distinct reference strings-to-sign (+ refusal stage); non-trivial = distinct (mutated request, provider)",
             bs.len(), uri_bytes.len(),
             if thorough { "; plus all pairs over ~600 strided mutation sites on four bases" } else { "" }
         ),
